@@ -179,13 +179,20 @@ def _l1(spec):
         # --- convert_field round trips
         for _k in range(4):
             v = rng.normal(size=5) * 10.0 ** rng.uniform(-3, 3)
-            bu = str(rng.choice(["mT", "uT", "T", "nT"])); hu = str(rng.choice(["uA/um", "A/m", "mA/mm", "nA/nm"]))
+            bu = str(rng.choice(["mT", "uT", "T", "nT"])); hu = str(rng.choice(["uA/um", "A/m", "mA/mm", "nA/nm", "mA/um", "A/cm", "kA/m", "uA/nm", "nA/mm"]))  # (also units that are NOT numerically A/m)
             cnt("convert_checks")
             Hh = convert_field(v, hu, old_units=bu, with_units=False)
             Bb = convert_field(Hh, bu, old_units=hu, with_units=False)
             if rel(Bb, v) > 1e-12:
                 viol("convert_field_round_trip", {"B_units": bu, "H_units": hu, "rel": rel(Bb, v)})
-            # absolute: B = mu0 H
+            # absolute, in both directions: H (in hu) -> T equals mu0 * H[A/m]
+            HU = {"uA/um": 1.0, "A/m": 1.0, "mA/mm": 1.0, "nA/nm": 1.0, "mA/um": 1e3, "A/cm": 1e2, "kA/m": 1e3, "uA/nm": 1e3, "nA/mm": 1e-6}[hu]
+            B_from_H = convert_field(v, "T", old_units=hu, with_units=False)
+            if rel(B_from_H, units.MU0 * v * HU) > 1e-8:
+                viol("convert_field_H_to_B_wrong", {"H_units": hu, "rel": rel(B_from_H, units.MU0 * v * HU)})
+            H_from_B = convert_field(v, hu, old_units="T", with_units=False)
+            if rel(H_from_B, v / units.MU0 / HU) > 1e-8:
+                viol("convert_field_B_to_H_wrong", {"H_units": hu, "rel": rel(H_from_B, v / units.MU0 / HU)})
             Hsi = convert_field(v, "A/m", old_units=bu, with_units=False)
             Bsi = convert_field(v, "T", old_units=bu, with_units=False)
             if rel(Hsi * units.MU0, Bsi) > 1e-8:
@@ -333,6 +340,13 @@ def _l2(spec):
     pa, pb = (np.asarray(sol.vector_potential_at_position(X, with_units=False)) for X in (Pi, Pf))
     if pa.shape != pb.shape or np.max(np.abs(pa - pb)) > 1e-12 * (np.max(np.abs(pb)) + 1e-300):
         viol("potential_depends_on_dtype_of_positions", {"max_abs_diff": float(np.max(np.abs(pa - pb))), "scale": float(np.max(np.abs(pb)))})
+    # a scalar, non-integer height with integer-typed (m, 2) positions
+    z_s = float(dev.layer.z0 + 1.5 * max(1.0, np.ceil(abs(dev.layer.z0))))
+    C["integer_position_checks"] += 1
+    fa2 = np.asarray(sol.field_at_position(Pi[:, :2], zs=z_s, vector=True, with_units=False))
+    fb2 = np.asarray(sol.field_at_position(Pf[:, :2], zs=z_s, vector=True, with_units=False))
+    if fa2.shape != fb2.shape or np.max(np.abs(fa2 - fb2)) > 1e-12 * (np.max(np.abs(fb2)) + 1e-300):
+        viol("field_depends_on_dtype_of_positions", {"scalar_zs": z_s, "max_abs_diff": float(np.max(np.abs(fa2 - fb2))), "scale": float(np.max(np.abs(fb2)))})
     rr.cleanup()
     return {"violations": V, "counters": C, "worst": W, "classes": ["L2", "units=" + lu + "/" + fu + "/" + cu, "weak_drive=" + str(bool(spec.get("weak")))],
             "nontrivial": C.get("solution_field_checks", 0) > 0 and C.get("solution_potential_checks", 0) > 0,
